@@ -88,6 +88,8 @@ type GenOpts struct {
 	// with decimals drawn per chain as always; and some deposits are reported with the contract address in another
 	// letter case than the token list has it (the hub matches ids exactly: such a report is observed and mints nothing)
 	SharedAddr bool
+	// TopFees: some users own 2^250 and offer fees of 2^248 and more (fees whose 32-byte encoding has no leading zero byte)
+	TopFees bool
 }
 
 var ethIds = []string{
@@ -247,7 +249,7 @@ func genFee(t *rapid.T, label string) string {
 
 var defaultWeights = map[string]int{
 	"send": 30, "cancel": 7, "reqbatch": 7, "deposit": 4, "transfer": 6, "exec": 4,
-	"tick": 2, "hb": 1, "relay": 5, "block": 24, "burst": 0, "xexec": 14, "xtick": 7, "send2": 4, "hostile": 0, "oprice": 0, "oholders": 0, "sign": 0, "byz": 0, "xround": 0, "xlag": 0, "xwhale": 0, "ss0": 0, "xbyzexec": 0, "xbyzdep": 0,
+	"tick": 2, "hb": 1, "relay": 5, "block": 24, "burst": 0, "xexec": 14, "xtick": 7, "send2": 4, "hostile": 0, "oprice": 0, "oholders": 0, "sign": 0, "byz": 0, "xround": 0, "xlag": 0, "xwhale": 0, "ss0": 0, "xbyzexec": 0, "xbyzdep": 0, "xtopfee": 0, "xfull": 0, "xexpire": 0,
 }
 
 // GenOps draws the operation list for a configuration.
@@ -265,7 +267,7 @@ func GenOps(t *rapid.T, cfg sim.Config, o GenOpts) []Op {
 	if o.Bursts && w["burst"] == 0 {
 		w["burst"] = 2
 	}
-	kinds := []string{"send", "cancel", "reqbatch", "deposit", "transfer", "exec", "tick", "hb", "relay", "block", "burst", "xexec", "xtick", "send2", "hostile", "oprice", "oholders", "sign", "byz", "xround", "xlag", "xwhale", "ss0", "xbyzexec", "xbyzdep"}
+	kinds := []string{"send", "cancel", "reqbatch", "deposit", "transfer", "exec", "tick", "hb", "relay", "block", "burst", "xexec", "xtick", "send2", "hostile", "oprice", "oholders", "sign", "byz", "xround", "xlag", "xwhale", "ss0", "xbyzexec", "xbyzdep", "xtopfee", "xfull", "xexpire"}
 	total := 0
 	for _, k := range kinds {
 		total += w[k]
@@ -442,6 +444,30 @@ func GenOps(t *rapid.T, cfg sim.Config, o GenOpts) []Op {
 			op.F = genFee(t, "fee")
 			op.R = rapid.IntRange(0, 7).Draw(t, "pick")
 			op.T = rapid.SampledFrom([]int64{5, 21, 61, 100000}).Draw(t, "dt")
+		case "xexpire":
+			if rapid.IntRange(0, 11).Draw(t, "expiregate") != 0 {
+				op.K, op.T = "block", 5
+				break
+			}
+			op.U = rapid.IntRange(0, 2).Draw(t, "u")
+			op.C = chainGen.Draw(t, "c")
+			op.D = denomGen.Draw(t, "d")
+			op.N = rapid.SampledFrom([]int{300, 400}).Draw(t, "n")
+		case "xfull":
+			if rapid.IntRange(0, 7).Draw(t, "fullgate") != 0 {
+				// 200 transfers are costly to follow step by step: one history in a few dozen carries them
+				op.K, op.T = "block", 5
+				break
+			}
+			op.U = rapid.IntRange(0, 2).Draw(t, "u")
+			op.C = chainGen.Draw(t, "c")
+			op.D = denomGen.Draw(t, "d")
+			op.R = rapid.IntRange(0, 3).Draw(t, "r")
+		case "xtopfee":
+			op.U = rapid.IntRange(0, 2).Draw(t, "u")
+			op.C = chainGen.Draw(t, "c")
+			op.D = denomGen.Draw(t, "d")
+			op.R = rapid.IntRange(0, 11).Draw(t, "r")
 		case "ss0":
 			op.C = chainGen.Draw(t, "c")
 		case "hb":
@@ -481,6 +507,9 @@ func GenCase(o GenOpts) func(t *rapid.T) interface{} {
 		if !o.NoFunds {
 			c.Funds = "1000000000000000000000000000000000000000000000000000000000000000"
 			if o.Whale && rapid.IntRange(0, 2).Draw(t, "whale-funds") == 0 {
+				c.Funds = new(big.Int).Lsh(big.NewInt(1), 250).String()
+			}
+			if o.TopFees && rapid.IntRange(0, 1).Draw(t, "topfee-funds") == 0 {
 				c.Funds = new(big.Int).Lsh(big.NewInt(1), 250).String()
 			}
 		}
